@@ -465,6 +465,11 @@ def rule_SB(ctx, tier):
         for x in og.walk(rt):
             if isinstance(x, tuple) and x and x[0] == "agg" and x[1].endswith("Result") and x[2] == "Ok" and x not in oks:
                 oks.append(x)
+        # `.map(|info| (cmp, expiry)).ok_or(..)`: the closure's tuple is the Ok payload
+        if cid != hse.id and isinstance(rt, tuple) and rt and rt[0] == "tuple" and len(rt[1]) == 2 and has_call(ctx.og.local(hse, 0), "ok_or"):
+            x = ("agg", "std::result::Result", "Ok", (("0", rt),))
+            if x not in oks:
+                oks.append(x)
 
     def ok_shape(x):
         tup = dict(x[3]).get("0")
